@@ -884,9 +884,16 @@ class Element(object):
                 if not isinstance(value, ElementList):
                     children = value
                     value = ElementList(self)
+                old_children = self.__dict__.get('children')
                 super(Element, self).__setattr__(name, value)
-                for c in children:
-                    self.add(c)
+                try:
+                    for c in children:
+                        self.add(c)
+                except Exception:
+                    # one of the new children has been refused: keep the previous ones
+                    if old_children is not None:
+                        super(Element, self).__setattr__(name, old_children)
+                    raise
             else:
                 super(Element, self).__setattr__(name, value)
         elif hasattr(self, 'children'):
